@@ -116,7 +116,56 @@ def oracle(case):
         imp = case["impl"]
         if imp["outcome"] == "panic":
             v.append({"what": f"indicator computation crashes on a model with schedules: {imp['msg'][:100]}", "key": {"class": "occupancy-panic"}})
+        elif imp["outcome"] == "ok" and "hours_in_use" in imp:
+            want = hours_by_definition(case.get("model") or {})
+            if want is not None:
+                _stats["occupancy_checked_against_definition"] += 1
+                if want != imp["hours_in_use"]:
+                    v.append({"what": f"occupied time: implementation {imp['hours_in_use']} h, but {want} hours of the year have non-zero occupancy in some "
+                                      "habitable space inside the envelope", "key": {"class": "hours-in-use-definition"}})
     return v[:3]
+
+
+def hours_by_definition(model):
+    """hours of the year in which at least one habitable space inside the envelope has non-zero occupancy, straight from the model JSON;
+    None when the statement does not single out a number (occupancy schedules of different lengths, values too close to zero to call)"""
+    sch = model.get("schedules", {})
+    days = {d["id"]: d.get("values", []) for d in sch.get("day", [])}
+    weeks = {w["id"]: [i for i, c in w.get("values", []) for _ in range(c)] for w in sch.get("week", [])}
+    years = {y["id"]: y.get("values", []) for y in sch.get("year", [])}
+    loads = {l["id"]: l for l in model.get("loads", [])}
+    expanded = []
+    for s in model.get("spaces", []):
+        if s.get("kind", "CONDITIONED") == "UNINHABITED" or not s.get("inside_tenv", True) or s.get("loads") is None:
+            continue
+        ps = (loads.get(s["loads"]) or {}).get("people_schedule")
+        if ps is None:
+            continue            # no occupancy at all in this space
+        if ps not in years:
+            return None
+        out, start = [], 0
+        for w, c in years[ps]:
+            wk = weeks.get(w, [])
+            if wk:
+                out += [wk[(start % 7 + k) % len(wk)] for k in range(c)]
+            start += c
+        expanded.append(out)
+    if not expanded:
+        return 0
+    if len({len(e) for e in expanded}) != 1:
+        return None
+    total = 0
+    for k in range(len(expanded[0])):
+        ids = {e[k] for e in expanded}
+        if any(i in days and len(days[i]) != 24 for i in ids):
+            return None
+        for h in range(24):
+            vals = [days[i][h] for i in ids if i in days and h < len(days[i])]
+            if any(0 < abs(x) <= 1e-4 for x in vals):
+                return None
+            if any(abs(x) > 1e-4 for x in vals):
+                total += 1
+    return total
 
 
 def nontrivial(case):
